@@ -344,4 +344,141 @@ theorem parseItems_sound : ∀ (n : Nat) (b : Bytes) (items : List Item) (pad : 
         omega
       · cases hp
 
+/-! ### `options_malformed` decides the option grammar -/
+
+/-- the size table of `options_malformed` (regenerated from the source) is the fixed-format table of the
+grammar: the length byte is at least 2 and the payload has the size the option's format fixes -/
+theorem optSizeOk_spec (k l : Nat) : optSizeOk k l = true ↔ (2 ≤ l ∧ fixedLenOk k (l - 2) = true) := by
+  match k with
+  | 0 | 1 | 6 | 7 => simp [optSizeOk, TcpConst.optionSizes, TcpConst.optionMinLen, fixedLenOk]
+  | 2 => simp [optSizeOk, TcpConst.optionSizes, fixedLenOk]; omega
+  | 3 => simp [optSizeOk, TcpConst.optionSizes, fixedLenOk]; omega
+  | 4 => simp [optSizeOk, TcpConst.optionSizes, fixedLenOk]; omega
+  | 5 => simp [optSizeOk, TcpConst.optionSizes, fixedLenOk]; omega
+  | 8 => simp [optSizeOk, TcpConst.optionSizes, fixedLenOk]; omega
+  | k + 9 => simp [optSizeOk, TcpConst.optionSizes, TcpConst.optionMinLen, fixedLenOk]
+
+/-- Lock-step of `options_malformed` and the grammar decoder: it returns `true` exactly when the
+decoder fails. -/
+theorem optionsMalformedAux_iff : ∀ (n : Nat) (b : Bytes), b.length ≤ n →
+    (optionsMalformedAux n b = true ↔ parseItems n b = none) := by
+  intro n
+  induction n with
+  | zero =>
+    intro b hl
+    have : b = [] := List.eq_nil_of_length_eq_zero (by omega)
+    subst this
+    simp [optionsMalformedAux, parseItems]
+  | succ n ih =>
+    intro b hl
+    match b, hl with
+    | [], _ => simp [optionsMalformedAux, parseItems]
+    | 0 :: p, _ => simp [optionsMalformedAux, parseItems]
+    | 1 :: r, hl =>
+      simp only [List.length_cons] at hl
+      simp only [optionsMalformedAux, parseItems, Option.map_eq_none_iff]
+      simpa using ih r (by omega)
+    | [k + 2], _ => simp [optionsMalformedAux, parseItems]
+    | (k + 2) :: l :: r, hl =>
+      simp only [List.length_cons] at hl
+      simp only [optionsMalformedAux, parseItems, List.length_cons, optSizeOk_spec]
+      by_cases hc : 2 ≤ l ∧ l - 2 ≤ r.length ∧ fixedLenOk (k + 2) (l - 2) = true
+      · obtain ⟨h2, hlr, hf⟩ := hc
+        obtain ⟨l', rfl⟩ : ∃ l', l = l' + 2 := ⟨l - 2, by omega⟩
+        have hdrop : ((k + 2) :: (l' + 2) :: r).drop (l' + 2) = r.drop (l' + 2 - 2) := by simp
+        rw [if_neg (by omega), if_neg (by omega), if_pos ⟨⟨h2, hf⟩, by omega⟩, if_pos ⟨h2, hlr, hf⟩, hdrop,
+          Option.map_eq_none_iff]
+        exact ih _ (by simp only [List.length_drop]; omega)
+      · rw [if_neg (by omega), if_neg (by omega), if_neg hc, if_neg (by intro h; exact hc ⟨h.1.1, by omega, h.1.2⟩)]
+        simp
+
+/-- **`options_malformed` is the grammar's notion of malformed.** -/
+theorem optionsMalformed_iff (b : Bytes) : optionsMalformed b = true ↔ parseArea b = none := by
+  unfold optionsMalformed parseArea
+  rw [optionsMalformedAux_iff _ b (Nat.le_refl _), Option.map_eq_none_iff]
+
+/-- the coverage tag `:bad-…` is present exactly when `options_malformed` returns `true` -/
+theorem malformedKind_isSome : ∀ (n : Nat) (b : Bytes),
+    (malformedKindAux n b).isSome = optionsMalformedAux n b := by
+  intro n
+  induction n with
+  | zero => intro b; rfl
+  | succ n ih =>
+    intro b
+    match b with
+    | [] => rfl
+    | k :: rest =>
+      simp only [malformedKindAux, optionsMalformedAux]
+      split
+      · rfl
+      · split
+        · exact ih rest
+        · match rest with
+          | [] => rfl
+          | len :: r =>
+            simp only [List.length_cons]
+            by_cases h1 : len < 2
+            · have : ¬ (optSizeOk k len = true) := by rw [optSizeOk_spec]; omega
+              simp [h1, this]
+            · by_cases h2 : optSizeOk k len = true
+              · by_cases h3 : len > r.length + 1 + 1
+                · simp [h1, h2, h3]
+                · simp only [h1, h2, h3, if_false, Bool.not_true, Bool.false_eq_true, true_and]
+                  rw [if_pos (by omega)]
+                  exact ih _
+              · simp [h1, h2]
+
+/-! ### the quirks the walk appends -/
+
+theorem walkStep_quirks (ty k : Nat) (d rest : Bytes) (st : WalkSt) :
+    (walkStep ty k d rest st).quirks = st.quirks ++ (walkStep ty k d rest {}).quirks ∧
+    ∀ q ∈ (walkStep ty k d rest {}).quirks, q ∈ optionQuirks := by
+  match k with
+  | 0 => simp only [walkStep, List.nil_append, optionQuirks]; split <;> simp
+  | 1 | 2 | 4 | 5 | 6 | 7 => simp [walkStep]
+  | 3 => cases d <;> simp [walkStep, optionQuirks]
+  | 8 =>
+    simp only [walkStep, List.nil_append, optionQuirks, List.append_assoc]
+    refine ⟨trivial, ?_⟩
+    intro q hq
+    simp only [List.mem_append] at hq
+    rcases hq with hq | hq
+    · split at hq
+      · split at hq <;> simp_all
+      · simp at hq
+    · split at hq
+      · split at hq <;> simp_all
+      · simp at hq
+  | k + 9 => simp [walkStep]
+
+theorem walkAux_quirks (ty : Nat) : ∀ (n : Nat) (buf : Bytes) (st : WalkSt),
+    (walkAux ty n buf st).quirks = st.quirks ++ (walkAux ty n buf {}).quirks ∧
+    ∀ q ∈ (walkAux ty n buf {}).quirks, q ∈ optionQuirks := by
+  intro n
+  induction n with
+  | zero => intro buf st; simp [walkAux]
+  | succ n ih =>
+    intro buf st
+    match buf with
+    | [] => simp [walkAux]
+    | k :: tl =>
+      simp only [walkAux]
+      obtain ⟨h1, h2⟩ := walkStep_quirks ty k (optPayload (k :: tl))
+        ((k :: tl).drop (min (optSize (k :: tl)) (k :: tl).length)) st
+      obtain ⟨i1, i2⟩ := ih ((k :: tl).drop (min (optSize (k :: tl)) (k :: tl).length))
+        (walkStep ty k (optPayload (k :: tl)) ((k :: tl).drop (min (optSize (k :: tl)) (k :: tl).length)) st)
+      obtain ⟨j1, _⟩ := ih ((k :: tl).drop (min (optSize (k :: tl)) (k :: tl).length))
+        (walkStep ty k (optPayload (k :: tl)) ((k :: tl).drop (min (optSize (k :: tl)) (k :: tl).length)) {})
+      refine ⟨by rw [i1, h1, j1, List.append_assoc], ?_⟩
+      intro q hq
+      rw [j1, List.mem_append] at hq
+      rcases hq with hq | hq
+      · exact h2 q hq
+      · exact i2 q hq
+
+/-- the walk only appends to the quirk list it is given, and what it appends are option-derived quirks -/
+theorem walk_quirks (ty : Nat) (buf : Bytes) (st : WalkSt) :
+    (walk ty buf st).quirks = st.quirks ++ (walk ty buf {}).quirks ∧
+    ∀ q ∈ (walk ty buf {}).quirks, q ∈ optionQuirks := walkAux_quirks ty buf.length buf st
+
 end Huginn.Lemmas.TcpWalk
